@@ -1,5 +1,7 @@
 mod common;
 mod matcher;
+mod exec;
+mod config;
 
 use common::*;
 use std::sync::Mutex;
@@ -29,6 +31,8 @@ fn main() {
     if let Some(r) = replay {
         let ok = match prop.as_str() {
             "C01" | "C02" | "C03" => matcher::replay(&r),
+            "C05" | "C14" | "C15" | "C20" => exec::replay(&prop, &r),
+            "C16" => config::replay(&prop, &r),
             _ => { eprintln!("no replay for {prop}"); false }
         };
         std::process::exit(if ok { 0 } else { 1 });
@@ -37,6 +41,8 @@ fn main() {
     let ctx = Ctx { driver, threads, seed, thorough: tier == "thorough", report: Mutex::new(Report::default()) };
     match prop.as_str() {
         "C01" | "C02" | "C03" => matcher::run(&ctx, &prop),
+        "C05" | "C14" | "C15" | "C20" => exec::run(&ctx, &prop),
+        "C16" => config::run(&ctx, &prop),
         _ => { eprintln!("unknown property {prop}"); std::process::exit(2); }
     }
     let rep = ctx.report.lock().unwrap();
